@@ -485,20 +485,20 @@ impl<'c, E: Elem + Clone + Default + Ord> Eng<'c, E> {
                     if form < 3 || E::ZST {
                         m.permute_cols(&stable_perm(&keys));
                     } else {
-                        // unstable: any permutation of whole columns that orders the line
-                        let got: Vec<u64> = x[l].iter().map(|e| e.id()).collect();
-                        let old = m.rows[l].clone();
+                        // unstable: any permutation of *whole columns* that orders the line (matched on
+                        // complete columns: the ids of a single line need not be unique)
                         let mut perm = Vec::with_capacity(c);
                         let mut used = vec![false; c];
-                        for g in &got {
-                            match (0..c).find(|&j| !used[j] && old[j] == *g) {
-                                Some(j) => {
-                                    used[j] = true;
-                                    perm.push(j);
+                        for j in 0..c {
+                            let got: Vec<u64> = x.col(j).map(|e| e.id()).collect();
+                            match (0..c).find(|&i| !used[i] && m.col(i) == got) {
+                                Some(i) => {
+                                    used[i] = true;
+                                    perm.push(i);
                                 }
                                 None => {
                                     if shape_mode {
-                                        fail!("unstable-sort-not-a-permutation", "sort form {} of row {}: line ids {:?} are not a permutation of {:?}", form, l, got, old);
+                                        fail!("unstable-sort-not-a-permutation", "sort form {} of row {}: result column {} = {:?} is not one of the original columns (or appears twice)", form, l, j, got);
                                     } else {
                                         return Ok((valid, None, false));
                                     }
@@ -534,19 +534,18 @@ impl<'c, E: Elem + Clone + Default + Ord> Eng<'c, E> {
                     if form < 3 || E::ZST {
                         m.permute_rows(&stable_perm(&keys));
                     } else {
-                        let got: Vec<u64> = x.col(l).map(|e| e.id()).collect();
-                        let old = m.col(l);
                         let mut perm = Vec::with_capacity(r);
                         let mut used = vec![false; r];
-                        for g in &got {
-                            match (0..r).find(|&j| !used[j] && old[j] == *g) {
-                                Some(j) => {
-                                    used[j] = true;
-                                    perm.push(j);
+                        for j in 0..r {
+                            let got: Vec<u64> = x[j].iter().map(|e| e.id()).collect();
+                            match (0..r).find(|&i| !used[i] && m.rows[i] == got) {
+                                Some(i) => {
+                                    used[i] = true;
+                                    perm.push(i);
                                 }
                                 None => {
                                     if shape_mode {
-                                        fail!("unstable-sort-not-a-permutation", "sort form {} of col {}: line ids {:?} are not a permutation of {:?}", form, l, got, old);
+                                        fail!("unstable-sort-not-a-permutation", "sort form {} of col {}: result row {} = {:?} is not one of the original rows (or appears twice)", form, l, j, got);
                                     } else {
                                         return Ok((valid, None, false));
                                     }
@@ -1400,5 +1399,5 @@ pub fn op() -> impl Strategy<Value = Op> {
 pub fn history(elems: &'static [(u32, ElemKind)], valid_only_p: f64, max_ops: usize, fault_p: f64) -> impl Strategy<Value = History> {
     let elem = proptest::sample::select(elems.iter().flat_map(|(w, k)| std::iter::repeat(*k).take(*w as usize)).collect::<Vec<_>>());
     let one = (op(), prop::bool::weighted(fault_p), 0u8..12).prop_map(|(op, f, k)| if f { Op::Faulted { op: Box::new(op), k } } else { op });
-    (elem, prop::bool::weighted(valid_only_p), ctor(6), prop::collection::vec(one, 0..max_ops)).prop_map(|(elem, valid_only, ctor, ops)| History { elem, valid_only, ctor, ops })
+    (elem, prop::bool::weighted(valid_only_p), prop_oneof![30 => ctor(6), 1 => ctor(40)], prop::collection::vec(one, 0..max_ops)).prop_map(|(elem, valid_only, ctor, ops)| History { elem, valid_only, ctor, ops })
 }
